@@ -17,7 +17,7 @@ from tools.lib import common
 PROP_MODULES = ["Ampverif.Props.C14"]
 N_CORR = {"quick": 2, "thorough": 25}
 N_ORACLE = {"quick": 2, "thorough": 15}
-CAP_S = 15.0  # wall-clock cap per oracle instance (symbolic doit of deeply nested random instances can explode)
+CAP_S = 6.0  # wall-clock cap per oracle instance (symbolic doit of deeply nested random instances can explode)
 RULE = ("distinct (class, operation, instance) triples of the correspondence whose instance has a nested @unevaluated "
         "argument or whose substitution map has >= 2 entries, plus distinct oracle instances with a nested @unevaluated argument")
 
@@ -125,13 +125,13 @@ class C14Property:
         from tools.corr import C18m1 as m1
         from tools.search import C14 as oracle
 
-        pools = corr.Pools(entries)
+        pools = corr.Pools(entries, friendly=True)
         stats = {"instances": 0, "commute_decided": 0, "commute_undecided": 0, "equality_pairs": 0, "numpy_code_comparisons": 0,
                  "timeouts": []}
         fails, notes = [], []
         for entry in entries:
             for k in range(n_per_class):
-                r = pools.instance_of(entry, rng, 2)
+                r = pools.instance_of(entry, rng, 1)
                 stats["instances"] += 1
                 nested = any(m1.is_unevaluated_class(type(a)) for a in r.args)
                 chk.count(("oracle", entry.key, str(r)) if nested else None)
@@ -142,6 +142,7 @@ class C14Property:
                 others = corr.variants_for_eq(entry, pools, rng, r)
                 stats["equality_pairs"] += len(others)
                 fails += oracle.check_equality(entry, r, others, notes)
+            fails += oracle.check_template_globals(entry, pools, rng, ctx)
             if entry.numpy_printable:
                 try:
                     f, n = corr.with_cap(4 * CAP_S, oracle.numpy_code_agrees, entry, pools, rng)
@@ -156,6 +157,7 @@ class C14Property:
                 fails += corr.with_cap(CAP_S, oracle.check_instance, None, obj, pools, rng, ctx, stats)
             except corr._Timeout:  # noqa: SLF001
                 stats["timeouts"].append(name)
+        fails += oracle.complex_sqrt_code_agrees()
         chk.info("oracle", stats)
         chk.info("oracle_excluded_points_met", {"count": len(notes), "examples": notes[:2]})
         return fails
